@@ -14,8 +14,13 @@ TWO53 = 1 << 53
 
 ENTRY = ["EDo", "EDoAcc", "EDoFb", "EDoFbAcc", "EAllowAccept", "EAllowReject"]
 CTX = ["CNone", "CLive", "CDone"]
-OUT = ["OOk", "OErrU", "OErrA", "OPanic"]
-RES = ["RNil", "RUnavailable", "RErrU", "RErrA", "RPanic", "RFallback", "RCtxDone", "ROther"]
+OUT = ["OOk", "OErrU", "OErrA", "OPanic", "OErrSU", "OErrSUW", "OCanceled", "ODeadline", "OErrFB", "OPanicSU"]
+RES = ["RNil", "RUnavailable", "RErrU", "RErrA", "RPanic", "RFallback", "RCtxDone", "ROther", "RErrSUW", "RDeadline",
+       "RPanicSU"]
+# outcomes the caller's predicate (DoWithAcceptable / DoWithFallbackAcceptable) accepts
+ACC_OUT = (0, 2, 5, 6)
+BAD_OUT = (1, 1, 1, 2, 3, 4, 4, 5, 6, 7, 8, 9)      # what a "bad" request does (weights)
+GOOD_OUT = (0, 0, 0, 0, 2, 5, 6)                   # what a "good" request does
 
 OVERLAY = {
     "core/breaker/verif_c01_test.go": os.path.join(vlib.HARNESS, "overlay/breaker/verif_c01_test.go"),
@@ -279,14 +284,23 @@ class C01(Property):
         calls = []
         for e in range(6):
             for c in range(3):
-                for o in range(4):
+                for o in (range(len(OUT)) if e < 4 else (0,)):
                     calls.append(call(e, c, o, gap=MS, dur=3 * MS))
         calls += [fail(gap=0) for _ in range(60)]
         for e in range(6):
             for c in range(3):
-                for o in range(4):
+                for o in (range(len(OUT)) if e < 4 else (0,)):
                     calls.append(call(e, c, o, gap=MS, dur=3 * MS, m=(0 if (e + o) % 2 else big)))
         cs.append({"base": B, "calls": calls})
+        # (5b) the request's own error collides with the breaker's values (a nested / downstream breaker
+        # that is open, a context error under a live context, the fallback's value), on a breaker that
+        # admits: every Do* entry point x {no ctx, live ctx}
+        calls = []
+        for e in range(4):
+            for c in range(2):
+                for o in (4, 5, 6, 7, 8, 9):
+                    calls.append(call(e, c, o, gap=3 * SEC, dur=MS))
+        cs.append({"base": B + 3, "calls": calls})
         # (6) total failure: 100 failures in the window, then draws just below / above 95/101
         thr = (95 * TWO53) // 101
         calls = [call(0, 0, 1, gap=10 * MS, m=big) for _ in range(100)]
@@ -375,7 +389,7 @@ class C01(Property):
         for i in range(nseq + npar):
             bad = rng.random() < pfail
             e = rng.choice([0, 1, 2, 3, 5 if bad else 4])
-            o = rng.choice([1, 1, 2, 3]) if bad else rng.choice([0, 0, 2])
+            o = rng.choice(BAD_OUT) if bad else rng.choice(GOOD_OUT)
             c = rng.choices([0, 1, 2], weights=(6, 3, 1))[0]
             calls.append(call(e, c, o, 0, 0, self._draw(rng)))
 
@@ -492,9 +506,9 @@ class C01(Property):
                 elif e == 5 and not bad:
                     e = 4
                 if bad:
-                    o = rng.choice([1, 1, 1, 2, 3])
+                    o = rng.choice(BAD_OUT)
                 else:
-                    o = rng.choice([0, 0, 0, 2])
+                    o = rng.choice(GOOD_OUT)
                 dur = 0
                 r = rng.random()
                 if r < 0.15:
